@@ -3,11 +3,78 @@
 use crate::c17::{gen_scenario, Flavor, GenCfg};
 use crate::framework::{Found, OneResult, Property};
 use crate::model::{run_scenario, Client, Op, RunOpts, RunReport, Scenario, Violation};
+use crate::sampler::Outcome;
 use crate::util::{hash_str, mix};
 use serde_json::{json, Value};
 
 pub struct ScenarioProp {
     pub flavor: Flavor,
+}
+
+/// Canary: a fixed set of operations on fixed seed graphs, evaluated once when the
+/// worker process starts and again after every run.  State inside the library that
+/// an earlier run corrupted (a poisoned lock, a global flag) changes reference and
+/// run alike and is invisible to the in-run oracle; the canary sees it as "the same
+/// call gives another result later in the life of the process".
+fn canary() -> Vec<Outcome> {
+    use crate::sampler::{build, Built, Settings};
+    let mut out = Vec::new();
+    crate::ctx::install(usize::MAX, None, crate::ctx::PreemptPlan::default());
+    crate::hashkeys::reset(0xca9a);
+    for g in crate::workload::named_graphs().into_iter().filter(|g| g.name == "triangle" || g.name == "sunrise") {
+        match build(&g) {
+            Built::Ok(s) => {
+                out.push(Outcome::Image(s.image().digest()));
+                let dim = s.dimension();
+                let point: Vec<u64> = (0..dim).map(|i| (0.137 + 0.618 * i as f64).fract().to_bits()).collect();
+                let ed: crate::sampler::EdgeData =
+                    g.edges.iter().map(|e| (if e.massive { Some(1.0f64.to_bits()) } else { None }, vec![0.25f64.to_bits(); g.d])).collect();
+                for st in [
+                    Settings::plain(),
+                    Settings { stab: Some(1e-6f64.to_bits()), debug: true, meta: true },
+                    Settings { stab: None, debug: false, meta: true },
+                ] {
+                    out.push(s.sample_x(&point, &ed, &st));
+                }
+                let mut rng = crate::simrng::SimRng::new(7, crate::simrng::RngKind::Native64);
+                out.push(s.sample_rng(&mut rng, &ed, &Settings::plain()));
+                out.push(s.getters());
+            }
+            Built::Err(e) => out.push(Outcome::BuildErr(e)),
+            Built::Panicked(m) => out.push(Outcome::Panicked(m)),
+        }
+    }
+    crate::ctx::uninstall();
+    out
+}
+
+static CANARY: std::sync::Mutex<Option<Vec<Outcome>>> = std::sync::Mutex::new(None);
+
+fn canary_check(r: &mut OneResult) {
+    let now = canary();
+    r.add("canary_evaluations", 1);
+    let mut g = CANARY.lock().unwrap();
+    match g.as_ref() {
+        None => *g = Some(now),
+        Some(first) => {
+            if let Some(i) = (0..first.len().max(now.len())).find(|&i| match (first.get(i), now.get(i)) {
+                (Some(a), Some(b)) => !a.same(b),
+                _ => true,
+            }) {
+                r.found.push(Found {
+                    class: "results-changed-during-process-lifetime".into(),
+                    key: format!("canary:{}", i),
+                    detail: json!({"canary_operation": i,
+                        "at_process_start": first.get(i).map(|o| o.short()),
+                        "now": now.get(i).map(|o| o.short()),
+                        "note": "a fixed call on a fixed seed graph no longer returns what it returned when this process started"}),
+                    case: json!({"kind": "canary"}),
+                });
+                // report once, then re-arm on the new state
+                *g = Some(now);
+            }
+        }
+    }
 }
 
 /// which violation classes belong to which property
@@ -53,6 +120,7 @@ pub fn report_to_result(sc: &Scenario, rep: RunReport, restarted_only: bool) -> 
     r.add("fault_unwind_out_of_logger_write_fired", s.unwind_at_log);
     r.add("fault_unwind_out_of_debug_fmt_fired", s.unwind_at_debug_fmt);
     r.add("fault_restart_from_durable_state_fired", s.restarts);
+    r.add("baton_handed_on_because_holder_blocked_on_a_lock", s.lock_handovers);
     r.add("burst_operations", s.bursts);
     r.add("burst_calls_checked_against_history_free_sampler", s.burst_calls);
     r.add("restarts", s.restarts);
@@ -171,9 +239,17 @@ impl Property for ScenarioProp {
         if index < 48 {
             r.sample = Some(summarise(&sc));
         }
-        self.filter(r)
+        let mut r = self.filter(r);
+        if self.flavor == Flavor::C17 {
+            canary_check(&mut r);
+        }
+        r
     }
     fn replay(&self, case: &Value) -> OneResult {
+        if case["kind"] == "canary" {
+            // needs the history of its worker process: only the prefix replay can show it
+            return OneResult::default();
+        }
         let sc: Scenario = serde_json::from_value(case["scenario"].clone()).expect("bad scenario in replay file");
         let rep = run_scenario(&sc, &self.opts());
         self.filter(report_to_result(&sc, rep, false))
